@@ -997,7 +997,7 @@ def h264_pps(sc):
     return h264_nal(0x68, b.rbsp(), sc)
 
 
-def h264_slice(idr, frame_num, idr_pic_id, first_mb, log2_fn, payload, sc):
+def h264_slice(idr, frame_num, idr_pic_id, first_mb, log2_fn, payload, sc, ref=None):
     """7.3.3 up to the fields that delimit pictures (first_mb_in_slice,
     slice_type, pic_parameter_set_id, frame_num, idr_pic_id); the rest of the
     slice is opaque to a framer."""
@@ -1007,7 +1007,11 @@ def h264_slice(idr, frame_num, idr_pic_id, first_mb, log2_fn, payload, sc):
         b.ue(idr_pic_id)
     for x in payload:
         b.u(8, x)
-    return h264_nal(0x65 if idr else 0x41, b.rbsp(), sc)
+    # nal_ref_idc: 3 for IDR and 2 otherwise, or `ref` (1..3): the slices of one picture may carry different
+    # NON-ZERO values (7.4.1: only the mix of 0 and non-0 is forbidden, 7.4.1.2.4: a new picture begins where
+    # nal_ref_idc differs with ONE of the two being 0)
+    r = ref if ref is not None else (3 if idr else 2)
+    return h264_nal((r << 5) | (5 if idr else 1), b.rbsp(), sc)
 
 
 def h264_aud(sc):
@@ -1049,8 +1053,11 @@ def h264_stream(rng, n_au=None, pre=None, lead3=False, small=False, sps_switch=F
             frame_num = 0
             idr_id += 1
         cfgs.append(start + len(au) if idr else None)      # where the parameter sets end
-        for k in range(1 + (rng.below(3) if rng.chance(1, 3) else 0)):
-            au += h264_slice(idr, frame_num, idr_id, 2 * k, log2_fn, payload(), sc())
+        nslices = 1 + (rng.below(3) if rng.chance(1, 3) else 0)
+        mixed = nslices > 1 and rng.chance(1, 2)
+        for k in range(nslices):
+            au += h264_slice(idr, frame_num, idr_id, 2 * k, log2_fn, payload(), sc(),
+                             ref=(1 + rng.below(3)) if mixed else None)
         frame_num += 1
         stream += au
         aus.append([start, len(stream), 1 if idr else 0])
